@@ -92,6 +92,46 @@ func pointFromY(y0 *big.Int, step int64, neg bool) (*big.Int, *big.Int) {
 	}
 }
 
+// a valid (on-curve, in-subgroup) point whose ratio x/y is the first admissible value at or after rho0 (stepping by `step`):
+// with Y = y^2 the curve equation becomes d rho^2 Y^2 - (a rho^2 + 1) Y + 1 = 0
+func pointFromRatio(rho0 *big.Int, step int64) (*big.Int, *big.Int) {
+	rho := new(big.Int).Mod(rho0, modP)
+	one := big.NewInt(1)
+	for ; ; rho = new(big.Int).Mod(rho.Add(rho, big.NewInt(step)), modP) {
+		if rho.Sign() == 0 {
+			continue
+		}
+		r2 := mulm(rho, rho)
+		b := new(big.Int).Mod(new(big.Int).Add(mulm(curveA, r2), one), modP)
+		A := mulm(curveD, r2)
+		disc := subm(mulm(b, b), mulm(big.NewInt(4), A))
+		if disc.Sign() != 0 && !isQR(disc) {
+			continue
+		}
+		sq := new(big.Int).ModSqrt(disc, modP)
+		inv2A := new(big.Int).ModInverse(mulm(big.NewInt(2), A), modP)
+		for _, sgn := range []int{1, -1} {
+			num := new(big.Int).Set(b)
+			if sgn == 1 {
+				num.Add(num, sq)
+			} else {
+				num.Sub(num, sq)
+			}
+			Y := mulm(new(big.Int).Mod(num, modP), inv2A)
+			if Y.Sign() == 0 || !isQR(Y) {
+				continue
+			}
+			y := new(big.Int).ModSqrt(Y, modP)
+			x := mulm(rho, y)
+			x2 := mulm(x, x)
+			// on the curve by construction; the subgroup test decides
+			if isQR(subm(one, mulm(curveA, x2))) {
+				return x, y
+			}
+		}
+	}
+}
+
 func be32(v *big.Int) []byte { return v.FillBytes(make([]byte, 32)) }
 
 func (d *driver) decodeInput(c *decCase, i int) []byte {
